@@ -98,6 +98,7 @@ type rtype struct {
 	Units   string   `json:"units"`
 	Dflt    string   `json:"dflt"`
 	Pats    []string `json:"pats"`
+	SibPats []string `json:"sibpats"`
 	Bound   string   `json:"bound"`
 	Members []member `json:"members"`
 }
@@ -310,11 +311,7 @@ func exec(kind byte, body []byte) *core.Verdict {
 	}
 	if want.Kind == "string" && c.Prog.Leaf.Pat != "" {
 		if sib := find(yang.ToEntry(ms.Modules["a"]), "sib_"+c.Prog.Site); sib != nil && sib.Type != nil {
-			w := append([]string{}, want.Pats[:len(want.Pats)-1]...)
-			if want.Pats[len(want.Pats)-1] != c.Prog.Leaf.Pat { // the leaf's pattern was a duplicate of an inherited one
-				w = append([]string{}, want.Pats...)
-			}
-			w = append(w, "sibling-pat")
+			w := want.SibPats
 			if g := strings.Join(sib.Type.Pattern, "|"); g != strings.Join(w, "|") {
 				return fail("patterns-differ-at-sibling", "sibling leaf of the same type: specification %q, library %q", strings.Join(w, "|"), g)
 			}
